@@ -12,7 +12,7 @@ FORMULA_HOW = ["str", "str", "density", "parse", "copy", "pickle", "deepcopy", "
 
 DATALESS = [[84, 0, 0], [118, 0, 0], [89, 0, 0], [85, 0, 0], [1, 4, 0], [26, 45, 0]]     # atoms without neutron data
 WITH_NEUTRON = [[26, 0, 0], [26, 56, 0], [1, 0, 0], [1, 2, 0], [64, 0, 0], [79, 0, 0], [79, 197, 0], [28, 58, 0]]
-ENERGY_DEP = [[64, 0, 0], [64, 155, 0], [71, 0, 0], [71, 176, 0], [62, 149, 0], [48, 113, 0]]
+ENERGY_DEP = [[64, 0, 0], [64, 155, 0], [64, 157, 0], [71, 0, 0], [71, 176, 0], [62, 149, 0], [62, 0, 0], [63, 151, 0], [66, 164, 0], [68, 167, 0], [70, 168, 0]]
 MAGNETIC = [[26, 0, 0], [28, 0, 0], [25, 0, 0], [64, 0, 0], [27, 0, 0]]
 ACTIVATED = [[27, 59, 0], [79, 197, 0], [11, 23, 0], [26, 58, 0], [13, 27, 0]]
 CRYSTAL = [[26, 0, 0], [29, 0, 0], [13, 0, 0], [6, 0, 0]]
@@ -84,7 +84,8 @@ def table_script(rng, V, tbl, cfg, pred_hint):
 
 def gen(seed, V, tier, index, bias=None):
     rng = random.Random(seed)
-    ntab = 1 if rng.random() < 0.6 else 2
+    thorough = tier == "thorough"
+    ntab = 1 if rng.random() < (0.4 if thorough else 0.6) else 2
     tables = ["T1", "T2"][:ntab]
     fam = {f: rng.random() < p for f, p in (
         ("mutator", 0.5), ("pub_reader", 0.6), ("pub_calc", 0.4), ("importer", 0.25), ("pub_init", 0.25),
@@ -147,7 +148,7 @@ def gen(seed, V, tier, index, bias=None):
         if f:
             fired[f] = fired.get(f, 0) + 1
     extra = []
-    nextra = rng.choice([0, 2, 4, 8, 12])
+    nextra = rng.choice([2, 4, 8, 12, 20, 28] if thorough else [0, 2, 4, 8, 12])
     msg = 0
     for _ in range(nextra):
         t = rng.choice(tables)
@@ -201,7 +202,7 @@ def gen(seed, V, tier, index, bias=None):
         evs.insert(rng.randrange(1, len(evs) + 1), ["newtable", rng.choice(tables)])
     if rng.random() < 0.05:
         evs.insert(rng.randrange(0, len(evs) + 1), ["newtable", "public"])
-    evs = evs[:44]
+    evs = evs[:72 if thorough else 44]
     hist = [[0, e] for e in evs]
     if cfg["two_nodes"]:
         # pickles travel to a second interpreter; the scheduler decides when (and whether) the
